@@ -31,6 +31,9 @@ def run(ctx):
                    label="refinement PlanCache => PlanCacheInd!Spec (flattening of cached/cur/got) and IndInv in every reachable state")
         ctx.apalache_inductive("graph/MC_PlanCacheInd", "ConstInit", "Init", "IndInit", "IndInv", timeout=1500,
                                label="IndInv inductive; 3 threads, 3 input and 3 output ids, id sequences of length 1..3 incl. duplicates")
+        ctx.apalache_step_must_fail("graph/MC_PlanCacheInd", ["PlanCacheInd", "MC_PlanCacheInd"], "ConstInit", "IndInit", "IndInv", "PlanCacheInd",
+                                    "Len(ids) = n /\\ RangeOf(ids) = set", "Len(ids) = n /\\ RangeOf(ids) \\subseteq set",
+                                    label="matches by length and membership only (the pinned defect)")
     h1 = ctx.path("class_hist.jsonl")
     n1 = ctx.tlc_generate("graph/RequestClasses", "graph/RequestClasses2.cfg" if ctx.quick else "graph/RequestClasses3.cfg", h1, workers=4)
     h2 = ctx.path("explicit_hist.jsonl")
